@@ -238,41 +238,78 @@ or_expr:
 
 land_expr:
 		               or_expr
-	|	land_expr LAND or_expr
+	|	land_expr LAND
+		{
+			// the right operand is evaluated only if the left one is not zero
+			$<expr>$ = expr{}
+			if l, ok := expand(yylex, $1); ok && l != 0 {
+				$<expr>$.n = 1
+			} else {
+				yylex.(*lexer).skip++
+			}
+		}
+		or_expr
 		{
 			$$.n = 0
 			$$.s = ""
-			if l, ok := expand(yylex, $1); ok && l != 0 {
-				if r, ok := expand(yylex, $3); ok && r != 0 {
-					$$.n = 1
-				}
+			if $<expr>3.n == 0 {
+				yylex.(*lexer).skip--
+			} else if r, ok := expand(yylex, $4); ok && r != 0 {
+				$$.n = 1
 			}
 		}
 
 lor_expr:
 		             land_expr
-	|	lor_expr LOR land_expr
+	|	lor_expr LOR
+		{
+			// the right operand is evaluated only if the left one is zero
+			$<expr>$ = expr{}
+			if l, ok := expand(yylex, $1); ok && l != 0 {
+				$<expr>$.n = 1
+				yylex.(*lexer).skip++
+			}
+		}
+		land_expr
 		{
 			$$.n = 0
 			$$.s = ""
-			if l, ok := expand(yylex, $1); ok && l != 0 {
+			if $<expr>3.n != 0 {
+				yylex.(*lexer).skip--
 				$$.n = 1
-			} else if r, ok := expand(yylex, $3); ok && r != 0 {
+			} else if r, ok := expand(yylex, $4); ok && r != 0 {
 				$$.n = 1
 			}
 		}
 
 cond_expr:
 		lor_expr
-	|	lor_expr '?' expr ':' cond_expr
+	|	lor_expr '?'
+		{
+			// only one of the two operands behind '?' is evaluated
+			$<expr>$ = expr{}
+			if l, ok := expand(yylex, $1); ok && l != 0 {
+				$<expr>$.n = 1
+			} else {
+				yylex.(*lexer).skip++
+			}
+		}
+		expr ':'
+		{
+			if $<expr>3.n == 0 {
+				yylex.(*lexer).skip--
+			} else {
+				yylex.(*lexer).skip++
+			}
+		}
+		cond_expr
 		{
 			$$.s = ""
-			if l, ok := expand(yylex, $1); ok {
-				if l != 0 {
-					$$.n, _ = expand(yylex, $3)
-				} else {
-					$$.n, _ = expand(yylex, $5)
-				}
+			if $<expr>3.n != 0 {
+				yylex.(*lexer).skip--
+				$$.n, _ = expand(yylex, $4)
+			} else {
+				$$.n, _ = expand(yylex, $7)
 			}
 		}
 
@@ -386,6 +423,10 @@ func expand(yylex yyLexer, x expr) (int, bool) {
 }
 
 func calculate(yylex yyLexer, l expr, op string, r expr) (x expr, ok bool) {
+	if yylex.(*lexer).skip > 0 {
+		// an operand that is not evaluated
+		return x, true
+	}
 	if l, ok1 := expand(yylex, l); ok1 {
 		if r, ok2 := expand(yylex, r); ok2 {
 			ok = true
